@@ -294,8 +294,31 @@ def rule_select_zmq(ctx: Ctx) -> RuleResult:
     return rr
 
 
+def rule_trio_checkpoint(ctx: Ctx) -> RuleResult:
+    """A Trio alarm is removed by cancelling its scope; cancellation is only delivered at a checkpoint.  The
+    callback must therefore be preceded, inside `with scope:`, by an unconditional await."""
+    from ..rules.util import cfg_of, nodes_where
+
+    p = ctx.p
+    rr = RuleResult("PASS", "C13.6", "TrioEventLoop._alarm_task reaches the callback only through an unconditional checkpoint (await) inside the cancel scope", floor=1)
+    fi = p.func("urwid.event_loop.trio_loop.TrioEventLoop._alarm_task")
+    cfg = cfg_of(fi)
+    cb = fi.params[-1]
+    calls = nodes_where(cfg, lambda x: isinstance(x, ast.Call) and isinstance(x.func, ast.Name) and x.func.id == cb)
+    awaits = nodes_where(cfg, lambda x: isinstance(x, ast.Await))
+    withs = [n for n in cfg.nodes if n.kind == "with" and "scope" in ast.unparse(n.ast.items[0].context_expr)]
+    if not calls or not withs:
+        raise AnalysisError("TrioEventLoop._alarm_task: callback call / `with scope:` not found")
+    inside = [a for a in awaits if a in cfg.reachable(withs)]
+    for c in calls:
+        rr.inst(f"callback call {norm(c.stmt, 30)}", True, {"awaits_in_scope": len(inside)})
+        if not inside or not cfg.dominated(c, inside):
+            rr.add(finding("PASS", fi, c.stmt, f"`{norm(c.stmt, 30)}` can run inside the cancel scope without passing a checkpoint (`await`): an alarm removed before the task's first step is not cancelled and its callback still runs", construct="alarm callback without a dominating checkpoint"))
+    return rr
+
+
 def run(ctx: Ctx):
-    return [rule_wrap(ctx), rule_snap(ctx), rule_idle_arming(ctx), rule_remove_returns(ctx), rule_select_zmq(ctx)]
+    return [rule_wrap(ctx), rule_snap(ctx), rule_idle_arming(ctx), rule_remove_returns(ctx), rule_select_zmq(ctx), rule_trio_checkpoint(ctx)]
 
 
 from ..mutants import Mut  # noqa: E402
@@ -308,5 +331,6 @@ MUTANTS = [
     Mut("asyncio-exc-not-cleared", _A, "AsyncioEventLoop.run", "            exc = self._exc\n            self._exc = None\n", "            exc = self._exc\n", ("ORDER|", "PASS|", "WRAP|")),
     Mut("asyncio-idle-handle-not-reset", _A, "AsyncioEventLoop._exception_handler", "                self._idle_asyncio_handle.cancel()\n                self._idle_asyncio_handle = None", "                self._idle_asyncio_handle.cancel()", "PASS|"),
     Mut("zmq-remove-idle-returns-none", "urwid/event_loop/zmq_loop.py", "ZMQEventLoop.remove_enter_idle", "        except KeyError:\n            return False\n\n        return True", "        except KeyError:\n            return False", "RET|"),
+    Mut("trio-alarm-conditional-checkpoint", "urwid/event_loop/trio_loop.py", "TrioEventLoop._alarm_task", "            await self._sleep(seconds)\n", "            if seconds > 0:\n                await self._sleep(seconds)\n", "PASS|event_loop.trio_loop.TrioEventLoop._alarm_task"),
     Mut("select-alarm-callback-no-idle-arming", _S, "SelectEventLoop._loop", "                alarm_callback()\n                self._did_something = True", "                alarm_callback()", ("PASS|", "ORDER|", "SIB|")),
 ]
